@@ -27,4 +27,12 @@ def k3(drv):
     return 'rst' not in r or '.. function:: g(' not in r['rst']
 
 
-WITNESSES = {'K1': k1, 'K2': k2, 'K3': k3}
+def k6(drv):
+    """rst.headers given as a mapping is accepted (as the list of its keys)"""
+    import s_config
+    with impl.Sandbox() as sb:
+        st, got = s_config.Env(sb).run(None, {'rst.headers': {'a': 1}}, [])
+    return st == 'ok'
+
+
+WITNESSES = {'K1': k1, 'K2': k2, 'K3': k3, 'K6': k6}
